@@ -37,3 +37,16 @@ CBPROBES(1, uint8_t)
 CBPROBES(2, uint16_t)
 CBPROBES(4, uint32_t)
 CBPROBES(8, uint64_t)
+
+/* stores with an explicit memory order (the library's own read-side fast paths use them: urcu-mb / urcu-qsbr reader counters):
+ * a CMM_SEQ_CST or CMM_SEQ_CST_FENCE store followed by a load of another location must not be reordered (store-buffering litmus);
+ * the pre-C11 compatibility path of these macros is reached by compiling with -std=gnu99 */
+#define STPROBES(W, T)										\
+__attribute__((noinline)) void probe_store_sc_##W(T *p, T v) { uatomic_store(p, v, CMM_SEQ_CST); }		\
+__attribute__((noinline)) void probe_store_scf_##W(T *p, T v) { uatomic_store(p, v, CMM_SEQ_CST_FENCE); }	\
+__attribute__((noinline)) void probe_set_mb_##W(T *p, T v) { uatomic_set(p, v); cmm_smp_mb(); }
+
+STPROBES(1, uint8_t)
+STPROBES(2, uint16_t)
+STPROBES(4, uint32_t)
+STPROBES(8, uint64_t)
